@@ -864,6 +864,17 @@ func runProto(plan *Plan, tape *simrt.Tape) *Outcome {
 					}
 				}
 			}
+			if x.viol == nil {
+				for _, r := range cs.replies {
+					if bad := replyRoundTrip(r); bad != "" {
+						x.fail("R-proto-roundtrip", "reply", bad)
+						break
+					}
+					if len(r.Raw) > 0 {
+						x.out.probe("reply-roundtrip-checked")
+					}
+				}
+			}
 			if x.viol != nil {
 				if starved && (x.viol.Rule == "R-proto-no-reply" || x.viol.Rule == "R-proto-malformed-reply") {
 					x.viol.Sub = "token-starvation"
@@ -1063,6 +1074,95 @@ func roundTrip(raw []byte) string {
 	}
 	if r1.Item != nil && (r1.Item.Flag != r2.Item.Flag || r1.Item.Exptime != r2.Item.Exptime || !bytes.Equal(r1.Item.Body, r2.Item.Body)) {
 		return fmt.Sprintf("command %q: flag/exptime/body differ after a round trip", trunc(string(raw), 60))
+	}
+	return ""
+}
+
+// replyRoundTrip: a reply the server serialised must parse back (Response.Read, the repository's
+// own client-side parser) to the same reply: same status, same message, same items (key, flags,
+// cas, bytes); and serialising the parsed reply again (Response.Write) must give a byte stream
+// that the independent parser reads as the same reply.
+func replyRoundTrip(r Reply) string {
+	if len(r.Raw) == 0 || r.Malformed != "" || !validStatus(r) {
+		return ""
+	}
+	resp := new(memcache.Response)
+	err := resp.Read(bufio.NewReader(bytes.NewReader(r.Raw)))
+	defer func() {
+		if resp.Items != nil {
+			resp.CleanBuffer()
+		}
+	}()
+	if err == memcache.ErrValueTooLarge {
+		return "" // the client-side parser applies body_max to listings too; not a round-trip question
+	}
+	if err != nil {
+		return fmt.Sprintf("reply %q does not parse back with Response.Read: %v", trunc(string(r.Raw), 80), err)
+	}
+	same := func(tag string, items map[string]*memcache.Item) string {
+		want := len(r.Items)
+		if len(r.Stats) > 0 {
+			want = len(r.Stats)
+		}
+		if len(items) != want {
+			return fmt.Sprintf("%s: reply %q has %d items, parsed back %d", tag, trunc(string(r.Raw), 80), want, len(items))
+		}
+		for _, it := range r.Items {
+			g, ok := items[it.Key]
+			if !ok || uint64(g.Flag) != it.Flag || !bytes.Equal(g.Body, it.Bytes) {
+				return fmt.Sprintf("%s: item %q of reply %q differs after parsing back (present=%v)", tag, it.Key, trunc(string(r.Raw), 80), ok)
+			}
+			if it.Cas != "" && strconv.Itoa(g.Cas) != it.Cas {
+				return fmt.Sprintf("%s: cas of item %q is %s, parsed back %d", tag, it.Key, it.Cas, g.Cas)
+			}
+		}
+		for _, st := range r.Stats {
+			g, ok := items[st[0]]
+			if !ok || string(g.Body) != st[1] {
+				return fmt.Sprintf("%s: STAT %s %s lost after parsing back", tag, st[0], st[1])
+			}
+		}
+		return ""
+	}
+	if bad := same("Response.Read", resp.Items); bad != "" {
+		return bad
+	}
+	if _, e := strconv.ParseInt(r.Status, 10, 64); e == nil {
+		if resp.Status != "INCR" || resp.Msg != r.Status {
+			return fmt.Sprintf("numeric reply %q parsed back as status %q msg %q", r.Status, resp.Status, resp.Msg)
+		}
+	} else if resp.Status != r.Status || resp.Msg != r.Msg {
+		return fmt.Sprintf("reply %q parsed back as status %q message %q", trunc(string(r.Raw), 80), resp.Status, resp.Msg)
+	}
+	// second half: serialise what was parsed, read it with the independent parser
+	if len(r.Stats) > 0 {
+		return "" // Response.Write takes stats as preformatted text; nothing to re-serialise
+	}
+	out := &memcache.Response{Status: resp.Status, Msg: resp.Msg, Items: resp.Items}
+	if len(r.Items) > 0 {
+		out.Status = "VALUE"
+		out.Cas = r.Items[0].Cas != ""
+	}
+	var buf bytes.Buffer
+	if e := out.Write(&buf); e != nil {
+		return fmt.Sprintf("Response.Write of the parsed reply %q failed: %v", trunc(string(r.Raw), 80), e)
+	}
+	r2, n, bad := parseReply(buf.Bytes())
+	if bad != "" || n != buf.Len() {
+		return fmt.Sprintf("reply %q parsed and serialised again gives %q: %s", trunc(string(r.Raw), 80), trunc(buf.String(), 80), bad)
+	}
+	if r2.Status != r.Status || r2.Msg != r.Msg || len(r2.Items) != len(r.Items) {
+		return fmt.Sprintf("reply %q parsed and serialised again gives %q", trunc(string(r.Raw), 80), trunc(buf.String(), 80))
+	}
+	m := map[string]RItem{}
+	for _, it := range r2.Items {
+		m[it.Key] = it
+	}
+	for _, it := range r.Items {
+		g, ok := m[it.Key]
+		if !ok || g.Flag != it.Flag || g.Cas != it.Cas || !bytes.Equal(g.Bytes, it.Bytes) {
+			return fmt.Sprintf("item %q of reply %q differs after parse + serialise", it.Key, trunc(string(r.Raw), 80))
+		}
 	}
 	return ""
 }
